@@ -370,11 +370,14 @@ func runReplay(f lib.Flags, res *lib.Result) {
 		for i, o := range w.Outs {
 			res.Case("replay/"+strconv.Itoa(i), o != "-")
 		}
-		for _, v := range w.Viols {
-			res.Violate(lib.Violation{Sig: v.Sig, What: v.What, Replay: body})
-		}
 		if body.Scenario.Disciplined && !w.Admissible {
-			res.Note("replayed history is not admissible: %s", w.Why)
+			// the inputs were recorded against other code: on this tree the environment would not have
+			// produced them (e.g. a timeout that is never scheduled here), so they prove nothing
+			res.Note("replayed history is not admissible on this tree (%s): its %d oracle findings are not reported", w.Why, len(w.Viols))
+		} else {
+			for _, v := range w.Viols {
+				res.Violate(lib.Violation{Sig: v.Sig, What: v.What, Replay: body})
+			}
 		}
 	default:
 		res.Fatalf("replay: unknown mode %q", body.Mode)
